@@ -84,6 +84,7 @@ pub fn output_tokens(
         trait_indirection: generics::TraitIndirection::Trait,
         trait_dependency_mode: &trait_dependency_mode,
         sub_attributes: &sub_attributes,
+        trait_unsafety: out_trait.unsafety,
     }
     .gen_trait_def(
         &out_trait.vis,
@@ -95,6 +96,7 @@ pub fn output_tokens(
     )?;
 
     let trait_ident = &out_trait.ident;
+    let trait_unsafety = &out_trait.unsafety;
     let params = out_trait.generics.impl_params_from_idents(
         generic_idents,
         generics::TakesSelfByValue(false), // BUG?
@@ -123,7 +125,7 @@ pub fn output_tokens(
         #delegation_trait_def
 
         #(#impl_sub_attributes)*
-        impl #params #trait_ident #args for #self_ty #where_clause {
+        #trait_unsafety impl #params #trait_ident #args for #self_ty #where_clause {
             #(#method_items)*
         }
     };
@@ -189,6 +191,7 @@ fn gen_impl_delegation_trait_defs(
                 trait_indirection: generics::TraitIndirection::StaticImpl,
                 trait_dependency_mode,
                 sub_attributes: impl_sub_attributes,
+                trait_unsafety: None,
             }
             .gen_trait_def(
                 &trait_copy.vis,
@@ -249,6 +252,7 @@ fn gen_impl_delegation_trait_defs(
                 trait_indirection: generics::TraitIndirection::DynamicImpl,
                 trait_dependency_mode,
                 sub_attributes: impl_sub_attributes,
+                trait_unsafety: None,
             }
             .gen_trait_def(
                 &trait_copy.vis,
